@@ -765,6 +765,9 @@ func TestVerifIRC(t *testing.T) {
 	snapEvery := vEnvInt("VERIF_IRC_SNAP", 1)
 	stateEvery = vEnvInt("VERIF_IRC_STATE_EVERY", 7)
 	vFanEvery = vEnvInt("VERIF_IRC_FANOUT", 0)
+	if b := vEnvInt("VERIF_IRC_TSBASE", 0); b > 0 {
+		vTsBase = int64(b)
+	}
 	h := 0
 	if in := os.Getenv("VERIF_IRC_IN"); in != "" {
 		pf, err := os.Open(in)
